@@ -25,7 +25,7 @@ Definition whalf (a : wt) : wt := match a with Some k => Some (k / 2) | None => 
 Definition oct_leq_edges (ts : list (Z * var)) (k : Z) : option (list edge) :=
   match ts with
   | [] => Some [(O, O, - k)]
-  | [(c, x)] => if unit_coef c then Some [(bar (lit c x), lit c x, - 2 * k)] else None
+  | [(c, x)] => if unit_coef c then Some [(bar (lit c x), lit c x, - (k + k))] else None
   | [(c, x); (d, y)] =>
     if unit_coef c && unit_coef d
     then Some [(bar (lit d y), lit c x, - k); (bar (lit c x), lit d y, - k)]
